@@ -30,6 +30,11 @@ def run_case(c):
         else:
             x = np.array([c["x"]], dtype=float)
             s = Surrogates(original_data=x.copy(), silence_level=3)
+            if c.get("prior"):
+                try:
+                    s.twin_surrogates(dimension=3 - c["dim"], delay=1, threshold=8.0, min_dist=c["md"])
+                except Exception:
+                    pass
             surr = s.twin_surrogates(dimension=c["dim"], delay=1, threshold=8.0, min_dist=c["md"])
             tw = s.twins(8.0, min_dist=c["md"])
             o["twins"] = [[int(v) for v in t] for t in tw[0]]
